@@ -147,15 +147,21 @@ Tick(d) == /\ now' = now + d /\ out' = [op |-> "Tick", ret |-> "ok", ev |-> 0]
            /\ UNCHANGED <<U, peers, seq, connected, anchors, bans, store>>
 
 (* ------------------------------- bans ------------------------------- *)
-\* misbehaviour ban of one address for t seconds: its ip is banned until now + t, the address leaves the book
-BanAddr(a, t) ==
-  /\ bans' = Put(bans, <<"ip", Ip(a)>>, now + t)
+\* misbehaviour ban of one address for t seconds: its ip is banned until now + t, the address leaves the book.
+\* Every insertion may sweep EXPIRED entries (the code does so at every 1024th): S, never a live one
+Expired(b) == {n \in DOMAIN b : b[n] <= now}
+BanAddr(a, t, S) ==
+  /\ LET b1 == Put(bans, <<"ip", Ip(a)>>, now + t) IN
+       /\ S \subseteq Expired(b1)
+       /\ bans' = Drop(b1, S)
   /\ store' = Drop(store, {a})
   /\ out' = [op |-> "BanAddr", ret |-> "ok", ev |-> 0]
   /\ UNCHANGED <<U, now, peers, seq, connected, anchors>>
 \* the operator's ban of a network UNTIL an instant (rpc set_ban -> NetworkController::ban)
-BanUntil(n, until) ==
-  /\ bans' = Put(bans, n, until)
+BanUntil(n, until, S) ==
+  /\ LET b1 == Put(bans, n, until) IN
+       /\ S \subseteq Expired(b1)
+       /\ bans' = Drop(b1, S)
   /\ out' = [op |-> "BanUntil", ret |-> "ok", ev |-> 0]
   /\ UNCHANGED <<U, now, peers, seq, connected, anchors, store>>
 Unban(n) ==
